@@ -119,6 +119,14 @@ CLAIMED['C14'] = dict(
     technique=PYVC + '; text as code-point views (absolute-index quantifiers); bounded real-pipe chunkings and selector enumeration',
 )
 
+CLAIMED['C18'] = dict(
+    category='proof',
+    text='Contracts on the value functions of the real configuration/static/parser.py -- med, local_preference, path_information, _community -- with a token as an opaque string whose integer value is an unconstrained integer: the function raises ValueError (never struct.error / IndexError / OverflowError) IF AND ONLY IF the written value does not fit the field, and an accepted value is carried big-endian exactly as written (nothing wrapped or truncated). Discharged by z3 for all integers. Bounded complement, two checks: (boundary-values) attribute keywords at 2^16 / 2^32 / 2^64 through the real Configuration.parse_route_text; (api-and-file) ~130 route / attributes / ipv4 / ipv6 / flow / vpls definitions at and beyond the boundary of labels, route distinguishers, prefix lengths, generic attributes, extended communities, prefix-sid, flow components, VPLS fields, with and without the mandatory next-hop / label / rd, through the real API command handlers on the real ASYNC scheduler and through a configuration file; accepted => encoded by the real UpdateCollection.messages() for eBGP/iBGP x 2-/4-byte AS x 4096/65535-byte sessions and the written value found by an RFC reference decoder; refused => exactly one error reply, nothing handed to the RIB, a non-empty error for a file; and ordered pairs of commands on one API object must give the second command the outcome it has alone.',
+    note='The deductive part covers four value functions only: as_path, _large_community, label, route_distinguisher, extended communities, prefix-sid, the flow and VPLS parsers, the tokeniser and Section.parse are BOUNDED ONLY (string splitting / slicing outside the engine). Count and size limits (number of communities, an attribute larger than a message) are not swept here (C09 covers the encoder side). EVPN / MUP / MVPN / BGP-LS / SR-policy text is not exercised. Thirteen genuine defects repaired (known_findings.json, DESIGN 11.12).',
+    ref='DESIGN.md §6 C18, §11.12',
+    technique=PYVC + '; opaque tokens with an uninterpreted integer value; bounded boundary sweeps through the real parser, API handlers and encoder against an RFC reference decoder, history pairs on one API object',
+)
+
 NOT_YET = 'check not built yet in this session (planned in DESIGN.md §6); not claimed until its obligations are discharged'
 NA = {}
 
